@@ -31,11 +31,12 @@ Proof.
   assert (N : NoDup (map e_id (nt_edges (r_rhs r)))) by (apply NoDup_map_filter; apply A11).
   assert (N1 : NoDup (map e_id (nt_edges (r_rhs r1)))) by (apply NoDup_map_filter; apply W1).
   assert (N2 : NoDup (map e_id (nt_edges (r_rhs r2)))) by (apply NoDup_map_filter; apply W2).
-  apply (set_eqb_spec node_eqb node_eqb_eq) in A2. apply (set_eqb_spec node_eqb node_eqb_eq) in A3.
+  pose proof (proj1 (set_eqb_spec node_eqb node_eqb_eq _ _) A2) as S2.
+  pose proof (proj1 (set_eqb_spec node_eqb node_eqb_eq _ _) A3) as S3.
   apply nodes_eqb_eq in A4. apply nats_eqb_eq in A5.
   apply Nat.eqb_eq in A6. apply Nat.eqb_eq in A7.
   rewrite forallb_forall in A8.
-  apply (set_eqb_spec edge_eqb edge_eqb_eq) in A9.
+  pose proof (proj1 (set_eqb_spec edge_eqb edge_eqb_eq _ _) A9) as S9.
   (* what the per-edge check says *)
   assert (E8 : forall e, In e (nt_edges (r_rhs r)) ->
      exists e1 e2, In e1 (nt_edges (r_rhs r1)) /\ In e2 (nt_edges (r_rhs r2)) /\
@@ -48,12 +49,12 @@ Proof.
     apply find_edge_some in F1. apply find_edge_some in F2. destruct F1 as [F1 I1]. destruct F2 as [F2 I2].
     repeat rewrite andb_true_iff in A8. destruct A8 as [[B1 B2] B3].
     apply nodes_eqb_eq in B1. apply nats_eqb_eq in B2.
-    destruct (nt_get m (e_lab e1, e_lab e2)) as [l|]; [|discriminate]. apply elabel_eqb_eq in B3.
-    exists e1, e2. rewrite B3. auto 10. }
+    destruct (nt_get m (e_lab e1, e_lab e2)) as [l|] eqn:G; [|discriminate]. apply elabel_eqb_eq in B3.
+    exists e1, e2. rewrite B3. repeat split; assumption. }
   unfold conj_rule_spec.
   split. { destruct (nt_get m (r_lhs r1, r_lhs r2)) as [l|]; [|discriminate].
            apply elabel_eqb_eq in A1. rewrite A1. reflexivity. }
-  split; [exact A2|]. split; [exact A3|]. split; [exact A4|]. split; [exact A5|].
+  split; [exact S2|]. split; [exact S3|]. split; [exact A4|]. split; [exact A5|].
   split; [|split; [exact E8|split; [|exact A11]]].
   - intros e1 e2 H1 H2 Eid.
     assert (I : incl (map e_id (nt_edges (r_rhs r1))) (map e_id (nt_edges (r_rhs r)))).
@@ -72,7 +73,7 @@ Proof.
     subst e1' e2'. exists (e_lab e). split; [exact G|].
     replace {| e_id := e_id e1; e_lab := e_lab e; e_att := e_att e1 |} with e; [exact He|].
     destruct e as [i l a]. simpl in *. subst. reflexivity.
-  - intros e. rewrite A9. apply in_app_iff.
+  - intros e. rewrite (S9 e). apply in_app_iff.
 Qed.
 
 (** * the grammar-level oracle *)
